@@ -123,6 +123,11 @@ class Sym:
                         continue
                     base = "%s.%s" % (base, e["n"] or e["f"])
                 elif "dc" in e:
+                    # downcast of an aggregate built on this path (`Some((a, b))` then `if let Some((x, y))`): its fields are the aggregate's operands
+                    mv = re.match(r"^[A-Za-z_][\w:]*::(\w+)\{", base)
+                    if mv and base.endswith("}") and mv.group(1) == (e["n"] or "") and not base.startswith(("tuple{", "agg{")):
+                        base = "tuple{" + base[mv.end():-1] + "}"
+                        continue
                     base = "%s@%s" % (base, e["n"] or e["dc"])
                 elif "idx" in e:
                     base = "%s[%s]" % (base, self.local(e["idx"], depth + 1))
